@@ -155,14 +155,10 @@ func (v DeflateVariant) String() string {
 type Deflater struct {
 	Takeover bool
 	hist     []byte
-	// persistent writers per level, used for variants that flush with sync
-	// markers; all of them see exactly the same input history.
-	buf bytes.Buffer
-	fw  map[int]*flate.Writer
 }
 
 func NewDeflater(takeover bool) *Deflater {
-	return &Deflater{Takeover: takeover, fw: map[int]*flate.Writer{}}
+	return &Deflater{Takeover: takeover}
 }
 
 func levelOf(v DeflateVariant) int {
@@ -180,52 +176,59 @@ func levelOf(v DeflateVariant) int {
 // Message compresses one message payload and returns the bytes to put into the
 // frames (RSV1 on the first).
 func (d *Deflater) Message(p []byte, v DeflateVariant) []byte {
-	var out []byte
-	switch v {
-	case DVBFinal:
-		var b bytes.Buffer
-		var w *flate.Writer
-		if d.Takeover && len(d.hist) > 0 {
-			w, _ = flate.NewWriterDict(&b, 6, d.hist)
-		} else {
-			w, _ = flate.NewWriter(&b, 6)
+	hist := d.hist
+	if !d.Takeover {
+		hist = nil
+	}
+	out := deflateOnce(p, v, hist)
+	// compress/flate's NewWriterDict emits the dictionary bytes inside stored
+	// blocks for incompressible input (observed with go1.23 and go1.26), which
+	// would make this sender non-conforming. Verify, and fall back to not
+	// referencing the window (always legal for a sender).
+	if len(hist) > 0 {
+		chk := &Inflater{Takeover: true, hist: hist}
+		if got, err := chk.Message(out, len(p)+1); err != nil || !bytes.Equal(got, p) {
+			out = deflateOnce(p, v, nil)
 		}
-		w.Write(p)
-		w.Close()
-		out = append(b.Bytes(), 0x00)
-	default:
-		var b bytes.Buffer
-		lvl := levelOf(v)
-		var w *flate.Writer
-		if d.Takeover && len(d.hist) > 0 {
-			w, _ = flate.NewWriterDict(&b, lvl, d.hist)
-		} else {
-			w, _ = flate.NewWriter(&b, lvl)
-		}
-		if v == DVMultiFlush && len(p) > 1 {
-			third := len(p)/3 + 1
-			q := p
-			for len(q) > 0 {
-				n := third
-				if n > len(q) {
-					n = len(q)
-				}
-				w.Write(q[:n])
-				w.Flush()
-				q = q[n:]
-			}
-		} else {
-			w.Write(p)
-			w.Flush()
-		}
-		out = b.Bytes()
-		if !bytes.HasSuffix(out, syncTail) {
-			panic("ref: flate flush did not end in sync marker")
-		}
-		out = out[:len(out)-4]
 	}
 	if d.Takeover {
 		d.hist = tail(append(d.hist, p...), window)
 	}
-	return append([]byte(nil), out...)
+	return out
+}
+
+func deflateOnce(p []byte, v DeflateVariant, hist []byte) []byte {
+	var b bytes.Buffer
+	lvl := levelOf(v)
+	var w *flate.Writer
+	if len(hist) > 0 {
+		w, _ = flate.NewWriterDict(&b, lvl, hist)
+	} else {
+		w, _ = flate.NewWriter(&b, lvl)
+	}
+	if v == DVBFinal {
+		w.Write(p)
+		w.Close()
+		return append(append([]byte(nil), b.Bytes()...), 0x00)
+	}
+	if v == DVMultiFlush && len(p) > 1 {
+		third := len(p)/3 + 1
+		for q := p; len(q) > 0; {
+			n := third
+			if n > len(q) {
+				n = len(q)
+			}
+			w.Write(q[:n])
+			w.Flush()
+			q = q[n:]
+		}
+	} else {
+		w.Write(p)
+		w.Flush()
+	}
+	out := b.Bytes()
+	if !bytes.HasSuffix(out, syncTail) {
+		panic("ref: flate flush did not end in sync marker")
+	}
+	return append([]byte(nil), out[:len(out)-4]...)
 }
